@@ -69,7 +69,7 @@ func (v *RecvScopeVariables) Get(s context.Scope, name string) (value.Value, err
 	case REQ_HASH_IGNORE_BUSY:
 		return v.ctx.HashIgnoreBusy, nil
 	case REQ_IS_IPV6:
-		parsed, err := netip.ParseAddr(v.ctx.Request.RemoteAddr)
+		parsed, err := parseRemoteAddr(v.ctx.Request.RemoteAddr)
 		if err != nil {
 			return value.Null, errors.WithStack(fmt.Errorf(
 				"could not parse remote address",
@@ -190,4 +190,13 @@ func (v *RecvScopeVariables) Add(s context.Scope, name string, val value.Value) 
 func (v *RecvScopeVariables) Unset(s context.Scope, name string) error {
 	// Nothing values to be enable to unset in RECV, pass to base
 	return v.base.Unset(s, name)
+}
+
+// parseRemoteAddr reads the address of the client out of http.Request.RemoteAddr,
+// which net/http fills with "host:port" ("[host]:port" for IPv6).
+func parseRemoteAddr(remoteAddr string) (netip.Addr, error) {
+	if ap, err := netip.ParseAddrPort(remoteAddr); err == nil {
+		return ap.Addr(), nil
+	}
+	return netip.ParseAddr(remoteAddr)
 }
